@@ -84,6 +84,7 @@ func ioProp(c ioCase) common.Result {
 		}
 	}()
 	applied := map[clientpb.MessageID]bool{}
+	lastExec := map[uint32]uint64{}
 	appliedCount := 0
 	sawDup, sawAbortOfWaiting, sawWaitingDup := false, false, false
 	outcomesSeen := map[*waiter]int{}
@@ -119,6 +120,19 @@ func ioProp(c ioCase) common.Result {
 			}
 			if found < 0 {
 				return common.Fail("io:digest-unexplained", "step %d: the digest after Exec equals no in-order subset of the batch", step)
+			}
+			// reference: what is executed depends on what was EXECUTED before and on nothing else - a command is applied
+			// exactly when its sequence number is above the highest one executed for its client (aborts, waiting clients and
+			// late requests change nothing about that)
+			want := 0
+			for i, cmd := range batch.Commands {
+				if cmd.SequenceNumber > lastExec[cmd.ClientID] {
+					want |= 1 << uint(i)
+					lastExec[cmd.ClientID] = cmd.SequenceNumber
+				}
+			}
+			if found != want {
+				return common.Fail("io:exec-differs-from-model", "step %d: Exec applied the commands with mask %b of the batch %v, the reference (sequence number above the highest executed one of the client) says %b\nhistory: %+v", step, found, op.Cmds, want, c.Ops[:step+1])
 			}
 			for i, cmd := range batch.Commands {
 				if found&(1<<uint(i)) != 0 {
